@@ -1334,3 +1334,53 @@ Example wl_hash_not_injective_example :
   Wl.color_weisfeiler_lehman Wl.wl_sort g ones (-1) = [0; 1; 1; 1; 0] /\
   Wl.tab_rel (Wl.cr_iter_tab g 5) 1 2 = false.
 Proof. cbv zeta. split; [|split]; vm_compute; reflexivity. Qed.
+
+(* =========================================================================================== *)
+(** * Renumbering at SOURCE LEVEL: the terms regenerated from the Python sources are equivariant
+
+    [src_modularity_*] (Gen/NpModularity.v, from clustering/metrics.py) and [src_dirichlet_fit] / [src_diffusion_fit]
+    (Gen/NpDiffusion.v, from regression/diffusion.py) are regenerated on every run; [rvdenote] is the NumPy / SciPy semantics of
+    Model/NpVec.v over R.  For EVERY permutation p of the n nodes ([perm_on n p]: the list p 0, ..., p (n-1) is a permutation of
+    0, ..., n-1), every matrix (index function), every label / seed vector and every option value: modularity, its fit and its
+    diversity term do not change when the graph is renumbered (A' i j = A (p i) (p j), labels' i = labels (p i)), and the
+    temperatures returned by the two diffusion fits on the renumbered graph at node i are those of the original graph at node p i. *)
+From SKN Require Import Model.NpExpr Model.NpVec Gen.NpModularity Gen.NpDiffusion Proofs.NpVecProofs Proofs.NpModularityProofs
+  Proofs.NpEquivariance.
+From Coq Require Import Reals.
+
+Theorem source_modularity_renumbering (n : nat) (p : nat -> nat) (A : nat -> nat -> R) (l : list Z) (deg : bool) (gamma : R) :
+  labels_ok n l -> perm_on n p ->
+  rvdenote (env_mod n (pmat p A) (plab n p l) deg gamma) src_modularity_mod = rvdenote (env_mod n A l deg gamma) src_modularity_mod /\
+  rvdenote (env_mod n (pmat p A) (plab n p l) deg gamma) src_modularity_fit = rvdenote (env_mod n A l deg gamma) src_modularity_fit /\
+  rvdenote (env_mod n (pmat p A) (plab n p l) deg gamma) src_modularity_div = rvdenote (env_mod n A l deg gamma) src_modularity_div.
+Proof. exact (NpEquivariance.source_modularity_renumbering n p A l deg gamma). Qed.
+Print Assumptions source_modularity_renumbering.
+
+Theorem source_dirichlet_renumbering (n : nat) (p : nat -> nat) (A : nat -> nat -> R) (s : nat -> R) (init : vvalue R) (k : nat) (alpha : R) :
+  perm_on n p -> init_ok init ->
+  exists f' f,
+    rvdenote (env_fit n (pmat p A) (fun i => s (p i)) init k alpha) src_dirichlet_fit = Some (WV n f') /\
+    rvdenote (env_fit n A s init k alpha) src_dirichlet_fit = Some (WV n f) /\
+    forall i, (i < n)%nat -> f' i = f (p i).
+Proof. exact (NpEquivariance.source_dirichlet_renumbering n p A s init k alpha). Qed.
+Print Assumptions source_dirichlet_renumbering.
+
+Theorem source_diffusion_renumbering (n : nat) (p : nat -> nat) (A : nat -> nat -> R) (s : nat -> R) (init : vvalue R) (k : nat) (alpha : R) :
+  perm_on n p -> init_ok init ->
+  exists f' f,
+    rvdenote (env_fit n (pmat p A) (fun i => s (p i)) init k alpha) src_diffusion_fit = Some (WV n f') /\
+    rvdenote (env_fit n A s init k alpha) src_diffusion_fit = Some (WV n f) /\
+    forall i, (i < n)%nat -> f' i = f (p i).
+Proof. exact (NpEquivariance.source_diffusion_renumbering n p A s init k alpha). Qed.
+Print Assumptions source_diffusion_renumbering.
+
+Example c02_nonvacuous_source_renumbering :
+  perm_on 3 (fun i => match i with O => 2 | 1 => 0 | _ => 1 end)%nat /\ labels_ok 3 (0 :: 2 :: 0 :: nil)%Z /\ init_ok (@WNone R).
+Proof.
+  split; [|split].
+  - unfold perm_on. cbn. apply Permutation_sym. apply (perm_trans (l' := (0 :: 2 :: 1 :: nil)%nat)).
+    + apply perm_skip. apply perm_swap.
+    + apply (perm_trans (l' := (2 :: 0 :: 1 :: nil)%nat)); [apply perm_swap | apply Permutation_refl].
+  - split; [reflexivity|]. intros [|[|[|i]]] Hi; try lia; cbn; lia.
+  - left. reflexivity.
+Qed.
